@@ -118,6 +118,32 @@ def gen(rng, tier, dist):
         cs = [rng.choice(COLL_BIG) for _ in range(n)]
         out.append("collapse " + hx(b"".join(b"/" + c for c in cs)))
         bump(dist, "collapse-random-%d" % n)
+    # ---- wide tables: 17..40 children matching the needle at the queried location (std::sort
+    # leaves its insertion-sort regime above 16 elements: the order then depends on the
+    # comparators alone), with 'name/' entries, names below them, duplicates
+    for k in range(60 if tier == "quick" else 1500):
+        n = rng.randint(17, 40)
+        stems = ["%s%02d" % (rng.choice("pdq"), rng.randint(0, 30)) for _ in range(n)]
+        tab = []
+        for st in stems:
+            r = rng.random()
+            if r < 0.2:
+                nm = st + "/"
+            elif r < 0.45:
+                nm = rng.choice(stems) + "/" + rng.choice("abc")      # below a (possibly present) 'name/' entry
+            else:
+                nm = st
+            tab.append(pc.mk_port([('L', nm.encode())], rng.choice([b"", b":i", b"::f"]), pc.gen_meta(rng), None))
+        if rng.random() < 0.5:
+            tree, loc = tab, rng.choice([b"", b"/"])
+        else:
+            tree, loc = [pc.mk_port([('L', b"w/")], b"", None, tab)], b"/w/"
+        needle = rng.choice([b"", b"", b"p", b"d", b"q"])
+        if sum(1 for p in tab if p['name'].startswith(needle)) < 17:
+            needle = b""
+        for opt in (0, 1, 2):
+            out.append("search %s %s %s %d 16384 %d" % (pc.enc_tree(tree), hx(loc), hx(needle), opt, 1 if rng.random() < 0.2 else 0))
+            bump(dist, "search-wide-table-opt-%d" % opt)
     # ---- trees
     ntree = 700 if tier == "quick" else 25000
     for k in range(ntree):
